@@ -53,6 +53,32 @@ var c13AllNicks = []string{"me", "me2", "a", "b", "c"}
 // topics cycle: unset -> "t one" -> "t two" -> cleared.
 var c13Topics = [3]string{"", "t one", "t two"}
 
+// c13StyleT: how the model server spells its lines. The protocol leaves several things open that do not change
+// what happened: optional reasons (PART, KICK, QUIT), a colon before a last parameter without blanks, which
+// two of the five privilege letters a network uses for its higher / lower channel privilege, and what a topic
+// looks like. A session is run in one style; the model's state does not depend on it.
+type c13StyleT struct {
+	Name               string
+	PartMsg, KickMsg   string // "" = the optional parameter is absent; otherwise rendered as " :<text>"
+	QuitMsg            string // rendered after "QUIT"
+	NickColon, JoinCol bool   // ":"-prefix on the single parameter of NICK / JOIN
+	Hi, Lo             byte   // mode letters of the two privileges (default o, v)
+	HiPfx, LoPfx       string // their NAMES prefixes
+	Topics             [3]string
+}
+
+var c13Styles = []c13StyleT{
+	{Name: "default", PartMsg: " :bye", KickMsg: " :out", QuitMsg: " :gone", NickColon: true, Hi: 'o', Lo: 'v', HiPfx: "@", LoPfx: "+", Topics: c13Topics},
+	{Name: "terse-halfop", PartMsg: "", KickMsg: "", QuitMsg: "", NickColon: false, JoinCol: true, Hi: 'o', Lo: 'h', HiPfx: "@", LoPfx: "%", Topics: [3]string{"", "t one ", " t two"}},
+	{Name: "empty-reasons-admin", PartMsg: " :", KickMsg: " :", QuitMsg: " :", NickColon: true, Hi: 'a', Lo: 'v', HiPfx: "&", LoPfx: "+", Topics: [3]string{"", ":", "t  two :x"}},
+	{Name: "owner-halfop", PartMsg: " :see you later", KickMsg: " :a b c", QuitMsg: " :Quit: leaving", NickColon: true, JoinCol: true, Hi: 'q', Lo: 'h', HiPfx: "~", LoPfx: "%", Topics: c13Topics},
+}
+
+// c13Style is the style of the session being run (one session at a time per worker process).
+var c13Style = c13Styles[0]
+
+func c13TopicText(i uint8) string { return c13Style.Topics[i] }
+
 // c13Chan is the state of one channel. An empty channel does not exist: when
 // the last user leaves, topic and modes are forgotten, and whoever joins an
 // empty channel gets op (as on every real network).
@@ -247,15 +273,22 @@ func (n *ircNet) Events() []c13Ev {
 
 func c13Prefix(op, voice bool) string {
 	if op {
-		return "@"
+		return c13Style.HiPfx
 	}
 	if voice {
-		return "+"
+		return c13Style.LoPfx
 	}
 	return ""
 }
 
 // leave removes u from channel c (part, kick, quit) and tidies up.
+func c13JoinArg(cn string) string {
+	if c13Style.JoinCol {
+		return ":" + cn
+	}
+	return cn
+}
+
 func (n *ircNet) leave(u, c int) {
 	ch := &n.Ch[c]
 	bit := uint8(1) << u
@@ -300,10 +333,10 @@ func (n *ircNet) Apply(e c13Ev) []string {
 		cn := c13Chans[c]
 		if u == 0 {
 			me := n.Nick(0)
-			lines = append(lines, ":"+n.src(0)+" JOIN "+cn)
+			lines = append(lines, ":"+n.src(0)+" JOIN "+c13JoinArg(cn))
 			ch.RTopic = 0
 			if ch.Topic != 0 {
-				lines = append(lines, fmt.Sprintf(":%s 332 %s %s :%s", c13Srv, me, cn, c13Topics[ch.Topic]))
+				lines = append(lines, fmt.Sprintf(":%s 332 %s %s :%s", c13Srv, me, cn, c13TopicText(ch.Topic)))
 				ch.RTopic = ch.Topic
 			}
 			var names []string
@@ -321,22 +354,22 @@ func (n *ircNet) Apply(e c13Ev) []string {
 				fmt.Sprintf(":%s 353 %s = %s :%s", c13Srv, me, cn, strings.Join(names, " ")),
 				fmt.Sprintf(":%s 366 %s %s :End of NAMES list", c13Srv, me, cn))
 		} else if ch.On&c13MeBit != 0 {
-			lines = append(lines, ":"+n.src(u)+" JOIN "+cn)
+			lines = append(lines, ":"+n.src(u)+" JOIN "+c13JoinArg(cn))
 			n.Known |= bit // the JOIN source carries ident@host
 		}
 	case evPart:
 		if n.Ch[c].On&c13MeBit != 0 {
-			lines = append(lines, ":"+n.src(u)+" PART "+c13Chans[c]+" :bye")
+			lines = append(lines, ":"+n.src(u)+" PART "+c13Chans[c]+c13Style.PartMsg)
 		}
 		n.leave(u, c)
 	case evKick:
 		if n.Ch[c].On&c13MeBit != 0 {
-			lines = append(lines, ":"+n.actor(c, u)+" KICK "+c13Chans[c]+" "+n.Nick(u)+" :out")
+			lines = append(lines, ":"+n.actor(c, u)+" KICK "+c13Chans[c]+" "+n.Nick(u)+c13Style.KickMsg)
 		}
 		n.leave(u, c)
 	case evQuit:
 		if n.sharing()&bit != 0 {
-			lines = append(lines, ":"+n.src(u)+" QUIT :gone")
+			lines = append(lines, ":"+n.src(u)+" QUIT"+c13Style.QuitMsg)
 		}
 		for cc := range n.Ch {
 			if n.Ch[cc].On&bit != 0 {
@@ -353,13 +386,17 @@ func (n *ircNet) Apply(e c13Ev) []string {
 			n.Name[u] = 3 - n.Name[u] - n.Name[other] // the pool name nobody uses
 		}
 		if visible {
-			lines = append(lines, ":"+old+" NICK :"+n.Nick(u))
+			if c13Style.NickColon {
+				lines = append(lines, ":"+old+" NICK :"+n.Nick(u))
+			} else {
+				lines = append(lines, ":"+old+" NICK "+n.Nick(u))
+			}
 		}
 	case evTopic:
 		ch := &n.Ch[c]
 		ch.Topic = (ch.Topic + 1) % uint8(len(c13Topics))
 		if ch.On&c13MeBit != 0 {
-			lines = append(lines, ":"+n.actor(c, -1)+" TOPIC "+c13Chans[c]+" :"+c13Topics[ch.Topic])
+			lines = append(lines, ":"+n.actor(c, -1)+" TOPIC "+c13Chans[c]+" :"+c13TopicText(ch.Topic))
 			ch.RTopic = ch.Topic
 		}
 	case evMode:
@@ -375,13 +412,13 @@ func (n *ircNet) Apply(e c13Ev) []string {
 		switch e.X {
 		case c13ModeOp:
 			ch.Op ^= bit
-			change = sign(ch.Op&bit != 0) + "o " + n.Nick(u)
+			change = sign(ch.Op&bit != 0) + string(c13Style.Hi) + " " + n.Nick(u)
 			if seen {
 				ch.ROp = ch.ROp&^bit | ch.Op&bit
 			}
 		case c13ModeVoice:
 			ch.Voice ^= bit
-			change = sign(ch.Voice&bit != 0) + "v " + n.Nick(u)
+			change = sign(ch.Voice&bit != 0) + string(c13Style.Lo) + " " + n.Nick(u)
 			if seen {
 				ch.RVoice = ch.RVoice&^bit | ch.Voice&bit
 			}
@@ -414,9 +451,9 @@ func (n *ircNet) Apply(e c13Ev) []string {
 				ch.Limit = !ch.Limit
 				ch.Op ^= wbit
 				if ch.Limit {
-					change = fmt.Sprintf("+l%so %d %s", sign(ch.Op&wbit != 0), c13Limit, n.Nick(w))
+					change = fmt.Sprintf("+l%s%c %d %s", sign(ch.Op&wbit != 0), c13Style.Hi, c13Limit, n.Nick(w))
 				} else {
-					change = fmt.Sprintf("-l%so %s", sign(ch.Op&wbit != 0), n.Nick(w))
+					change = fmt.Sprintf("-l%s%c %s", sign(ch.Op&wbit != 0), c13Style.Hi, n.Nick(w))
 				}
 				if seen {
 					ch.RLimit = ch.Limit
@@ -427,7 +464,7 @@ func (n *ircNet) Apply(e c13Ev) []string {
 				wbit := uint8(1) << w
 				ch.Op ^= bit
 				ch.Voice ^= wbit
-				change = fmt.Sprintf("%so%sv %s %s", sign(ch.Op&bit != 0), sign(ch.Voice&wbit != 0), n.Nick(u), n.Nick(w))
+				change = fmt.Sprintf("%s%c%s%c %s %s", sign(ch.Op&bit != 0), c13Style.Hi, sign(ch.Voice&wbit != 0), c13Style.Lo, n.Nick(u), n.Nick(w))
 				if seen {
 					ch.ROp = ch.ROp&^bit | ch.Op&bit
 					ch.RVoice = ch.RVoice&^wbit | ch.Voice&wbit
@@ -554,7 +591,7 @@ func (n *ircNet) View() *c13View {
 		if ch.On&c13MeBit == 0 {
 			continue
 		}
-		cv := &c13ChanView{Topic: c13Topics[ch.RTopic], N: ch.RN, Members: map[string]c13Privs{}}
+		cv := &c13ChanView{Topic: c13TopicText(ch.RTopic), N: ch.RN, Members: map[string]c13Privs{}}
 		if ch.RKey {
 			cv.Key = c13Key
 		}
